@@ -20,7 +20,7 @@ type c14cCase struct {
 	Pad   int    `json:"pad"`
 }
 
-var c14cClasses = []string{"download", "padded-download", "padding-only-frames", "empty-data-frames", "timed-out-request-data-in-flight", "reset-by-server-mid-body", "two-streams-interleaved"}
+var c14cClasses = []string{"download", "padded-download", "padding-only-frames", "empty-data-frames", "timed-out-request-data-in-flight", "reset-by-server-mid-body", "two-streams-interleaved", "data-only-for-abandoned-requests"}
 
 // csender is the scripted server's send-side ledger towards the client.
 type csender struct {
@@ -132,7 +132,7 @@ func c14cExec(cs c14cCase) (*fw.Violation, *harness.Client, int64) {
 	guard := 0
 	for s == nil || s.sent < target {
 		guard++
-		if guard > 4000 {
+		if guard > 6000 {
 			return mk("harness-horizon", "pattern did not reach the target volume"), h, 0
 		}
 		switch cs.Class {
@@ -204,6 +204,25 @@ func c14cExec(cs c14cCase) (*fw.Violation, *harness.Client, int64) {
 				if r, d := s.send(id, chunk, false, cs.Pad); r != "" {
 					if strings.HasPrefix(r, "sender-starved stream") {
 						break // the stream is gone for the client; only the connection window must recover
+					}
+					return mk(r, d), h, s.sent
+				}
+			}
+		case "data-only-for-abandoned-requests":
+			// every request is given up before its first DATA frame arrives: all the DATA the client ever sees
+			// is for requests that have gone, and the connection window still has to come back
+			call, id, e := open()
+			if e != "" {
+				return mk("harness", e), h, 0
+			}
+			h.FireTimer("client.go")
+			if !call.Done {
+				return mk("request-never-resolved", "request did not end when its timeout fired"), h, s.sent
+			}
+			for i := 0; i < 3; i++ {
+				if r, d := s.send(id, chunk, false, cs.Pad); r != "" {
+					if strings.HasPrefix(r, "sender-starved stream") {
+						break
 					}
 					return mk(r, d), h, s.sent
 				}
